@@ -140,6 +140,11 @@ impl PingPong {
         }
     }
 
+    /// Returns true if a received PING has not been acknowledged yet.
+    pub(crate) fn is_pong_pending(&self) -> bool {
+        self.pending_pong.is_some()
+    }
+
     /// Send any pending pongs.
     pub(crate) fn send_pending_pong<T, B>(
         &mut self,
